@@ -146,6 +146,25 @@ type caseResult struct {
 	Detail string `json:"detail,omitempty"`
 }
 
+// A call whose ctx is already cancelled returns at once while the stock components finish their part
+// in the background (the batch and the simple span processor shut their exporter down from a
+// goroutine and return at ctx.Done()). The statement constrains WHAT is shut down, and how often, not
+// that it has happened by the time such a call returns (see docs/notes/C15.md, judgement calls), so
+// once a cancelled-ctx call was made the projection is allowed to settle: it is re-taken until it
+// equals an admissible state or settleBound has passed -- only then is it a mismatch. Sequences of
+// live-ctx calls are projected immediately, as before. (settleBound is six orders of magnitude above
+// the cost of the background work: an in-memory exporter Shutdown.)
+const settleBound = 2 * time.Second
+
+func settles(ops ...Op) bool {
+	for _, op := range ops {
+		if op.Ctx == "cancelled" {
+			return true
+		}
+	}
+	return false
+}
+
 // runGroup executes one group on a fresh world.
 func runGroup(cfg replayCfg, g group) (res caseResult) {
 	w := newWorld(cfg)
@@ -160,7 +179,13 @@ func runGroup(cfg replayCfg, g group) (res caseResult) {
 	}
 	if len(g.Path) > 0 {
 		at := w.project(out)
-		if d := diff(cfg.Prov, at, g.From, false); d != "" {
+		d := diff(cfg.Prov, at, g.From, false)
+		for t0 := time.Now(); d != "" && settles(g.Path...) && time.Since(t0) < settleBound/2; {
+			time.Sleep(time.Millisecond)
+			at = w.project(out)
+			d = diff(cfg.Prov, at, g.From, false)
+		}
+		if d != "" {
 			return caseResult{Status: "skip", Why: "source-not-taken:" + strings.SplitN(d, ":", 2)[0]}
 		}
 	}
@@ -169,15 +194,28 @@ func runGroup(cfg replayCfg, g group) (res caseResult) {
 	if strings.HasPrefix(out.Err, "panic:") {
 		return caseResult{Status: "mismatch", Why: "panic", Got: &got, Detail: out.Err + "\n" + lastPanic}
 	}
-	why := ""
-	for j, to := range g.Tos {
-		d := diff(cfg.Prov, got, to, true)
-		if d == "" {
-			return caseResult{Status: "ok", Match: j}
+	match := func() (int, string) {
+		why := ""
+		for j, to := range g.Tos {
+			d := diff(cfg.Prov, got, to, true)
+			if d == "" {
+				return j, ""
+			}
+			if why == "" {
+				why = d
+			}
 		}
-		if why == "" {
-			why = d
-		}
+		return -1, why
+	}
+	j, why := match()
+	settle := settles(g.Path...) || settles(g.Act)
+	for t0 := time.Now(); j < 0 && settle && time.Since(t0) < settleBound; {
+		time.Sleep(time.Millisecond)
+		got = w.project(out)
+		j, why = match()
+	}
+	if j >= 0 {
+		return caseResult{Status: "ok", Match: j}
 	}
 	return caseResult{Status: "mismatch", Why: why, Got: &got}
 }
